@@ -14,6 +14,7 @@ import (
 	"sync"
 	"testing"
 
+	"github.com/golang/snappy"
 	"github.com/openGemini/openGemini/lib/util/lifted/vm/protoparser/influx"
 	"pgregory.net/rapid"
 	"verif/internal/ev"
@@ -50,8 +51,8 @@ type mRow struct {
 type rowsCase struct {
 	Kind   string `json:"kind"` // "row_batch"
 	Rows   []mRow `json:"rows"`
-	Reuse  string `json:"reuse"`           // "fresh" | "wal" | "decoder": how the receiver's pools are reused
-	Prev   []mRow `json:"prev,omitempty"`  // batch decoded before with the same pools
+	Reuse  string `json:"reuse"`            // "fresh" | "wal" | "decoder": how the receiver's pools are reused
+	Prev   []mRow `json:"prev,omitempty"`   // batch decoded before with the same pools
 	Prefix []int  `json:"prefix,omitempty"` // strict prefix lengths to try (nil = all)
 }
 
@@ -240,6 +241,8 @@ type rowsOutcome struct {
 	prefixPanic  int
 	panicSites   map[string]int
 	prefixAsRows int // strict prefixes decoded without error into a true prefix of the rows
+	frameTried   int // cut snappy frames tried
+	frameErr     int // ... that were recognised as incomplete (snappy or row decoder error)
 }
 
 // checkRowBatch runs the round trip and the prefix property on one case.
@@ -342,6 +345,34 @@ func checkRowBatchRows(rc *rowsCase, rows []influx.Row) (out rowsOutcome, err er
 				return out, fmt.Errorf("strict prefix of %d/%d bytes decoded without error into all %d rows", n, len(enc), len(prows))
 			}
 			out.prefixAsRows++
+		}
+	}
+	// the WAL stores the batch as one snappy block; a record cut short must not decompress into
+	// something that decodes into other rows
+	comp := snappy.Encode(nil, enc)
+	for _, n := range try {
+		if n < 0 || n >= len(comp) {
+			continue
+		}
+		out.frameTried++
+		dec, e := snappy.Decode(nil, comp[:n:n])
+		if e != nil {
+			out.frameErr++
+			continue
+		}
+		pv := &receiver{}
+		prows, e, p, _ := pv.decode(dec)
+		if p != nil || e != nil {
+			out.frameErr++
+			continue
+		}
+		if len(prows) >= len(rc.Rows) {
+			return out, fmt.Errorf("snappy frame cut to %d/%d bytes decoded without error into %d rows, batch has %d", n, len(comp), len(prows), len(rc.Rows))
+		}
+		for i := range prows {
+			if d := rowEqual(&rc.Rows[i], &prows[i]); d != "" {
+				return out, fmt.Errorf("snappy frame cut to %d/%d bytes decoded without error into fabricated row %d: %s", n, len(comp), i, d)
+			}
 		}
 	}
 	return out, nil
@@ -636,6 +667,9 @@ func TestRowBatch(t *testing.T) {
 		}
 		if out.prefixErr > 0 {
 			c.Class("prefix_error")
+		}
+		if out.frameTried > 0 && out.frameErr == out.frameTried {
+			c.Class("cut_snappy_frames_all_recognised")
 		}
 		if out.prefixAsRows > 0 {
 			c.Class("prefix_decoded_as_row_prefix")
